@@ -234,9 +234,17 @@ def r_wallclock(chk, P):
     ok = is_call(ret, name="<naive::time::NaiveTime as std::ops::Add<offset::fixed::FixedOffset>>::add") and is_call(ret[2][1], name="offset::Offset::fix") \
         and is_call(ret[2][0], name=NDT + "::time") and arg_field(ret[2][0][2][0]) == (1, 0)
     chk.expect(ok, "time()", "DateTime::time is not self.datetime.time() + self.offset.fix(): " + pp(ret), loc=P.loc(DTI + "time"))
-    ret = single_ret(P, "datetime::map_local")
-    inner = [c for c in find_calls(ret) if c[1] == ONL]
-    chk.expect(bool(inner) and arg_field(inner[0][2][0]) == (1, None), "map_local wall clock", "map_local does not apply f to overflowing_naive_local(): " + pp(ret))
+    # map_local applies f to overflowing_naive_local(self) on every path (any number of return paths)
+    inner = []
+    npaths = 0
+    for p_ in Sym(P, "datetime::map_local").paths():
+        if p_.end[0] != "return":
+            continue
+        npaths += 1
+        fcalls = [c for c in p_.calls if not isinstance(c[1], str) or str(c[1]).endswith("call_mut") or str(c[1]).endswith("call_once") or str(c[1]).endswith("::call")]
+        onl = [c for t in fcalls for c in find_calls(t) if c[1] == ONL] + [c for c in p_.calls if c[1] == ONL]
+        inner.append(bool(onl) and all(arg_field(c[2][0]) == (1, None) for c in onl))
+    chk.expect(npaths > 0 and all(inner), "map_local wall clock", "map_local does not apply f to overflowing_naive_local(self) on every path")
 
 
 def _closure_mentions(P, cl, names, seen=None):
@@ -268,6 +276,37 @@ def _closure_mentions(P, cl, names, seen=None):
 ONE_SIDED = {DTI + "checked_add_days": {"MAX_UTC"}, DTI + "checked_sub_days": {"MIN_UTC"}}
 
 
+def _ints(v, out):
+    if isinstance(v, bool):
+        return
+    if isinstance(v, int):
+        out.append(v)
+    elif isinstance(v, dict):
+        for x in v.values():
+            _ints(x, out)
+    elif isinstance(v, (list, tuple)):
+        for x in v:
+            _ints(x, out)
+
+
+def _utc_bound(P, t):
+    """'MIN_UTC' / 'MAX_UTC' when the term is (a reference to) that constant, by name or by its compiler-evaluated value"""
+    for y in walk_terms(t):
+        if y[0] == "named" and y[1].endswith("MIN_UTC"):
+            return "MIN_UTC"
+        if y[0] == "named" and y[1].endswith("MAX_UTC"):
+            return "MAX_UTC"
+        if y[0] == "const" and isinstance(y[1], tuple) and "datetime::DateTime" in repr(y[1])[:60]:
+            got = []
+            _ints(y[1], got)
+            for name, path in (("MIN_UTC", NDT + "::MIN"), ("MAX_UTC", NDT + "::MAX")):
+                want = []
+                _ints(P.value(path), want)
+                if want and got[-len(want):] == want or got[:len(want)] == want:
+                    return name
+    return None
+
+
 def has_range_filter(P, fn):
     """fn's result passes through Option::filter / LocalResult::and_then with a closure comparing against MIN_UTC and MAX_UTC"""
     for p in Sym(P, fn).paths():
@@ -276,6 +315,8 @@ def has_range_filter(P, fn):
         var, _ = result_variant(p.ret)
         if var in ("None",):
             continue
+        if is_call(p.ret) and str(p.ret[1]).endswith("::from_residual"):
+            continue  # `?` propagating a None
         if var == "Some" and arg_field(p.ret[4][0]) == (1, None):
             continue  # returns self unchanged: the same instant
         ok = False
@@ -287,6 +328,24 @@ def has_range_filter(P, fn):
                 need = ONE_SIDED.get(fn, {"MIN_UTC", "MAX_UTC"})
                 if clos and _closure_mentions(P, clos[0][2], ("MIN_UTC", "MAX_UTC")) >= need:
                     ok = True
+        if not ok:
+            # second idiom: the comparisons are path conditions (`if v >= MIN_UTC && v <= MAX_UTC { Some(v) } else { None }`)
+            need = ONE_SIDED.get(fn, {"MIN_UTC", "MAX_UTC"})
+            have = set()
+            for c in p.conds:
+                tc = c[1]
+                truth = (c[2] != 0) if not isinstance(c[2], tuple) else (c[2][0] == "else" and 0 in c[2][1])
+                if c[0][0] != "switch" or not is_call(tc) or not truth:
+                    continue
+                op = str(tc[1]).split("::")[-1]
+                if len(tc[2]) != 2:
+                    continue
+                which = _utc_bound(P, tc[2][1])
+                if op in ("ge", "gt") and which == "MIN_UTC":
+                    have.add("MIN_UTC")
+                if op in ("le", "lt") and which == "MAX_UTC":
+                    have.add("MAX_UTC")
+            ok = have >= need
         if not ok:
             return False, pp(p.ret)
     return True, None
